@@ -12,6 +12,8 @@ from pyvc.model import Obj
 from . import spec as S
 
 VAL = "d42/validation/_validator.py"
+# the verdict contract is what C01 / C04 / C05 / C12 / C14 / C15 compose with: their checks re-prove it
+DEP_VERDICT = ("C02", "C01", "C04", "C05", "C12")
 RES = "d42/validation/_validation_result.py"
 
 # -- transparent helpers (expanded from their real source at every call site) ------------------------
@@ -133,7 +135,7 @@ def scalar_visit(cls: str):
         c.raises(props=("C08",))
         pseq = S.pathseq_in(c.pre_ph, p)
         c.ensures("result", lambda r, post: z3.And(*S.is_result(ct, r)), ("C02",))
-        c.ensures("verdict", lambda r, post: S.no_errors(r) == S.conforms_def(ct, cls, Sx, v), ("C02",))
+        c.ensures("verdict", lambda r, post: S.no_errors(r) == S.conforms_def(ct, cls, Sx, v), DEP_VERDICT)
         c.ensures("located", lambda r, post: located(ct, cls, r, Sx, v, pseq, post), ("C03",))
         c.ensures("errors-wf", lambda r, post: errs_alloc(S.errors_of(r), post.alloc), ("C03", "C08"))
         c.ensures("path-frame", lambda r, post: path_frame(post), ("C03", "C07"))
@@ -147,7 +149,7 @@ for _m, _cls in [("visit_none", "NoneSchema"), ("visit_bool", "BoolSchema"), ("v
                  ("visit_float", "FloatSchema"), ("visit_str", "StrSchema"),
                  ("visit_bytes", "BytesSchema"), ("visit_datetime", "DateTimeSchema"),
                  ("visit_uuid4", "UUID4Schema"), ("visit_date", "DateSchema")]:
-    contract(VAL, f"Validator.{_m}", props=("C02", "C03", "C08", "C07"), group="validator")(scalar_visit(_cls))
+    contract(VAL, f"Validator.{_m}", props=("C02", "C03", "C08", "C07", "C01", "C04", "C05", "C12"), group="validator")(scalar_visit(_cls))
 
 
 # -- loop invariants -----------------------------------------------------------------------------------
@@ -435,7 +437,7 @@ def container_visit(cls: str, visitor: str = "Validator"):
         c.raises(props=("C08",))
         base = S.pathseq_in(c.pre_ph, p)
         c.ensures("result", lambda r, post: z3.And(*S.is_result(ct, r)), ("C02",))
-        c.ensures("verdict", lambda r, post: S.no_errors(r) == S.conforms_def(ct, cls, Sx, v), ("C02",))
+        c.ensures("verdict", lambda r, post: S.no_errors(r) == S.conforms_def(ct, cls, Sx, v), DEP_VERDICT)
         c.ensures("located", lambda r, post: z3.And(
             errs_alloc(S.errors_of(r), post.alloc),
             errs_located(S.errors_of(r), lambda e: located_def(ct, cls, e, Sx, v, base, epath(post.ph, e)))),
@@ -446,8 +448,8 @@ def container_visit(cls: str, visitor: str = "Validator"):
 
 for _m, _cls in [("visit_list", "ListSchema"), ("visit_dict", "DictSchema"), ("visit_any", "AnySchema"),
                  ("visit_type_alias", "TypeAliasSchema")]:
-    contract(VAL, f"Validator.{_m}", props=("C02", "C03", "C08", "C07", "C16"), group="validator")(
-        container_visit(_cls))
+    contract(VAL, f"Validator.{_m}", props=("C02", "C03", "C08", "C07", "C16", "C01", "C04", "C05", "C12"),
+             group="validator")(container_visit(_cls))
 
 
 def _path_fixed(L):
